@@ -1114,6 +1114,8 @@ class mulgrid(object):
             self.connectionlist[-1].node = self.connection_nodes(con.column)
             for col in self.connectionlist[-1].column:
                 col.connection.add(self.connectionlist[-1])
+            con.column[0].neighbour.add(con.column[1])
+            con.column[1].neighbour.add(con.column[0])
 
     def connection_nodes(self, cols):
         """Identifies nodes on the connection between a pair of two columns.
@@ -1137,6 +1139,10 @@ class mulgrid(object):
         for col in con.column: col.connection.remove(con)
         del self.connection[colnames]
         self.connectionlist.remove(con)
+        col0, col1 = con.column
+        if not (col0.connection & col1.connection): # no other connection joins them
+            col0.neighbour.discard(col1)
+            col1.neighbour.discard(col0)
 
     def add_well(self, wl = None):
         """Adds well to the geometry. If a well with the specified name
